@@ -21,9 +21,14 @@
 (* ALTERNATIVE value next to the value (cost_label of a posting without     *)
 (* cost: '' as shipped, or NULL; any_meta of a posting without a metadata   *)
 (* dictionary: NULL as shipped, or the transaction's value), the tables of  *)
-(* accounts and commodities are compared as sets of rows, and ledgers with  *)
-(* two open (close, commodity) directives for one account (currency) are    *)
-(* outside the domain (WellFormed).                                         *)
+(* accounts and commodities are compared as sets of rows.                    *)
+(*                                                                         *)
+(* "any directive types and counts": an account may be opened (closed) by   *)
+(* several directives and a currency declared by several commodity          *)
+(* directives (Beancount reports that and keeps every directive).  The      *)
+(* tables of accounts and commodities have ONE row per account / currency    *)
+(* and open_meta / open_date / close_date / commodity_meta read ONE          *)
+(* directive: the one that STANDS (OpenIdx, CloseIdx, CommodityIdx below).   *)
 (*                                                                         *)
 (* PART 3 (the connection): the ledger is attached to a connection once and  *)
 (* any number of statements are executed on it.  A statement either refers   *)
@@ -41,8 +46,8 @@ CONSTANTS
     Alpha,      \* the directive alphabet: a sequence of abstract directives
     MaxLen,     \* ledgers of 0..MaxLen directives
     Keys,       \* sequence of metadata keys looked up by meta() & co
-    Mech,       \* "ok" = the iteration as shipped;  "skipfirst" / "rowidperentry" / "updateinplace" / "foldcase" =
-                \* deliberately broken (non-vacuity)
+    Mech,       \* "ok" = the iteration as shipped;  "skipfirst" / "rowidperentry" / "updateinplace" / "foldcase" /
+                \* "firstcommodity" / "listedopen" = deliberately broken (non-vacuity)
     MaxStmts,   \* statements executed one after the other on the one connection
     QualOpts    \* the FROM qualifiers a statement on the default table may carry: a set of Qual records
 
@@ -50,6 +55,7 @@ CONSTANTS
 (* ---- generic helpers ---- *)
 NULL == <<>>
 Some(x) == <<x>>
+Opt0(n) == IF n = 0 THEN NULL ELSE Some(n)
 IsNull(o) == Len(o) = 0
 Range(s) == {s[n] : n \in 1..Len(s)}
 Abs(x) == IF x < 0 THEN -x ELSE x
@@ -120,20 +126,16 @@ MetaKeysDistinct(meta) == \A a, b \in 1..Len(meta) : meta[a][1] = meta[b][1] => 
 MetaLocated(meta) ==      \* the two keys every parsed directive / posting dictionary carries
     /\ HasKey(meta, "filename") /\ RawGet(meta, "filename").t = "str"
     /\ HasKey(meta, "lineno") /\ RawGet(meta, "lineno").t = "int"
-(* the domain of the property: located metadata, distinct keys, at most one open / close per account and one
-   commodity directive per currency (which of several wins is not stated) *)
+(* the domain of the property: located metadata, distinct keys -- any directive kinds and counts, several open / close
+   directives for one account and several commodity directives for one currency included *)
 WellFormed(L) ==
-    /\ \A i \in 1..Len(L) :
+    \A i \in 1..Len(L) :
           /\ L[i].k \in Kinds
           /\ MetaKeysDistinct(L[i].meta) /\ MetaLocated(L[i].meta)
           /\ IsTxn(L[i]) => \A j \in 1..Len(L[i].postings) :
                 LET p == L[i].postings[j] IN
                 \* IF, not a disjunction: inside an action TLC explores both sides of a disjunction
                 IF IsNull(p.meta) THEN TRUE ELSE (MetaKeysDistinct(p.meta[1]) /\ MetaLocated(p.meta[1]))
-    /\ \A i, j \in 1..Len(L) :
-          (i # j /\ L[i].k = L[j].k) =>
-              /\ L[i].k \in {"open", "close"} => L[i].account # L[j].account
-              /\ L[i].k = "commodity" => L[i].currency # L[j].currency
 
 -----------------------------------------------------------------------------
 (* ---- PART 1: the tables, declaratively ---- *)
@@ -153,15 +155,25 @@ OfKindFrom(L, kind, i) ==
 OfKind(L, kind) == OfKindFrom(L, kind, 1)
 
 (* -- account and commodity directories (open_meta, open_date, close_date, commodity_meta, #accounts, #commodities) -- *)
-OpenIdx(L, a) ==
-    IF \E i \in 1..Len(L) : L[i].k = "open" /\ L[i].account = a
-    THEN Some(CHOOSE i \in 1..Len(L) : L[i].k = "open" /\ L[i].account = a) ELSE NULL
-CloseIdx(L, a) ==
-    IF \E i \in 1..Len(L) : L[i].k = "close" /\ L[i].account = a
-    THEN Some(CHOOSE i \in 1..Len(L) : L[i].k = "close" /\ L[i].account = a) ELSE NULL
-CommodityIdx(L, c) ==
-    IF \E i \in 1..Len(L) : L[i].k = "commodity" /\ L[i].currency = c
-    THEN Some(CHOOSE i \in 1..Len(L) : L[i].k = "commodity" /\ L[i].currency = c) ELSE NULL
+(* THE directive of an account / a currency when the ledger has several.  The property statement speaks of "the
+   corresponding directives" and of "the account-open and commodity metadata lookups" and leaves the choice to what
+   Beancount means by the open directive of an account and the commodity directive of a currency -- the ledger tables
+   present the BEANCOUNT directives:
+     * open / close: the chronologically earliest one, the one listed first among equally dated ones
+       (beancount.core.getters.get_account_open_close: "If an open or close entry happens to be duplicated, accept the
+       earliest entry (chronologically)");
+     * commodity: a declaration supersedes the earlier declarations of the same currency -- the one listed last stands
+       (beancount.core.getters.get_commodity_directives: the map currency -> directive written in ledger order).
+   Stated as "no other directive of the same account / currency beats it"; the mechanism of part 2 folds. *)
+OpensOf(L, a) == {i \in 1..Len(L) : L[i].k = "open" /\ L[i].account = a}
+ClosesOf(L, a) == {i \in 1..Len(L) : L[i].k = "close" /\ L[i].account = a}
+CommoditiesOf(L, c) == {i \in 1..Len(L) : L[i].k = "commodity" /\ L[i].currency = c}
+Earlier(L, i, j) == L[i].date < L[j].date \/ (L[i].date = L[j].date /\ i < j)
+EarliestOf(L, S) == CHOOSE i \in S : \A j \in S \ {i} : Earlier(L, i, j)
+LastOf(S) == CHOOSE i \in S : \A j \in S : j <= i
+OpenIdx(L, a) == LET S == OpensOf(L, a) IN IF S = {} THEN NULL ELSE Some(EarliestOf(L, S))
+CloseIdx(L, a) == LET S == ClosesOf(L, a) IN IF S = {} THEN NULL ELSE Some(EarliestOf(L, S))
+CommodityIdx(L, c) == LET S == CommoditiesOf(L, c) IN IF S = {} THEN NULL ELSE Some(LastOf(S))
 OpenDate(L, a) == LET o == OpenIdx(L, a) IN IF IsNull(o) THEN NULL ELSE Some(L[o[1]].date)
 CloseDate(L, a) == LET o == CloseIdx(L, a) IN IF IsNull(o) THEN NULL ELSE Some(L[o[1]].date)
 (* the metadata of the account's open directive -- whether or not the account was closed later *)
@@ -265,7 +277,9 @@ AccountRow(L, a) ==
      open_date |-> OpenDate(L, a), close_date |-> CloseDate(L, a),
      open_meta |-> LET o == OpenIdx(L, a) IN IF IsNull(o) THEN NULL ELSE MetaCell(L[o[1]].meta)]
 AccountsRows(L) == {AccountRow(L, a) : a \in DirectoryAccounts(L)}
-CommoditiesRows(L) == Range(TypedRows(L, "commodity"))
+(* -- #commodities: one row per declared currency: the attributes of its commodity directive -- *)
+DeclaredCurrencies(L) == {L[i].currency : i \in {x \in 1..Len(L) : L[x].k = "commodity"}}
+CommoditiesRows(L) == {TypedRow(L, CommodityIdx(L, c)[1]) : c \in DeclaredCurrencies(L)}
 
 PostingsRows(L, keys) == LET ps == Postings(L) IN [n \in 1..Len(ps) |-> PostingRow(L, ps[n][1], ps[n][2], keys)]
 EntriesRows(L, keys) == [i \in 1..Len(L) |-> EntryRow(L, i, keys)]
@@ -447,7 +461,8 @@ NextTyped ==
     /\ UNCHANGED <<lx, tab, pj, ctx, dir, done, conn>>
 
 (* getters.get_account_open_close: a map account -> [open, close]; an earlier-dated (or, on equal dates, the
-   earlier listed) directive wins over a later duplicate *)
+   earlier listed) directive wins over a later duplicate (Mech = "listedopen": the slot is filled once, by the directive
+   listed first whatever its date -- deliberately broken) *)
 DirPos(a) == IF \E n \in 1..Len(dir) : dir[n][1] = a THEN CHOOSE n \in 1..Len(dir) : dir[n][1] = a ELSE 0
 NextDirectory ==
     /\ tab = "accounts" /\ ~done /\ ~AtEnd
@@ -459,12 +474,13 @@ NextDirectory ==
                 d0 == IF n = 0 THEN Append(dir, <<e.account, 0, 0>>) ELSE dir
                 m == IF n = 0 THEN Len(d0) ELSE n
                 prev == d0[m][slot]
-                keep == prev # 0 /\ L[prev].date <= e.date
+                keep == prev # 0 /\ (Mech = "listedopen" \/ L[prev].date <= e.date)
             IN dir' = [d0 EXCEPT ![m][slot] = IF keep THEN prev ELSE ei + 1]
     /\ UNCHANGED <<lx, tab, pj, ctx, emitted, done, conn>>
 
 (* getters.get_commodity_directives: {entry.currency: entry for entry in entries if Commodity}: one slot per
-   currency, at the position of its first directive, holding the last one *)
+   currency, at the position of its first directive, holding the last one (Mech = "firstcommodity": dict.setdefault,
+   the slot keeps the first one -- deliberately broken) *)
 NextCommodity ==
     /\ tab = "commodities" /\ ~done /\ ~AtEnd
     /\ ei' = ei + 1
@@ -472,7 +488,8 @@ NextCommodity ==
        IF e.k # "commodity" THEN emitted' = emitted
        ELSE IF \E n \in 1..Len(emitted) : L[emitted[n]].currency = e.currency
             THEN emitted' = [n \in 1..Len(emitted) |->
-                                IF L[emitted[n]].currency = e.currency THEN ei + 1 ELSE emitted[n]]
+                                IF L[emitted[n]].currency = e.currency /\ Mech # "firstcommodity" THEN ei + 1
+                                ELSE emitted[n]]
             ELSE emitted' = Append(emitted, ei + 1)
     /\ UNCHANGED <<lx, tab, pj, ctx, dir, done, conn>>
 
@@ -486,7 +503,6 @@ Next == Build \/ Start \/ NextStatement \/ NextEntryE \/ NextEntryP \/ NextPosti
 Spec == Init /\ [][Next]_vars
 
 (* the rows the consumer saw *)
-Opt0(n) == IF n = 0 THEN NULL ELSE Some(n)
 MechRows ==
     CASE tab = "build" -> <<>>
       [] tab = "postings" -> [n \in 1..Len(emitted) |-> PostingRow(L, emitted[n].entry, emitted[n].posting, Keys)]
@@ -502,7 +518,9 @@ MechRows ==
 (* ---- the lookups, as the code does them ---- *)
 (* compiler.py rewrites meta(k) -> getitem(meta, k), entry_meta(k) -> getitem(entry.meta, k), any_meta(k) ->
    getitem(meta, k, getitem(entry.meta, k)); query_env.open_meta / currency_meta (= commodity_meta) fetch the directive
-   from the accounts / commodities directory and call entry.meta.get(key).  Everything ends in dict.get(key): a scan
+   from the accounts / commodities directory (the maps the tables of accounts and commodities were built with when the
+   ledger was attached: OpenSlot / CommoditySlot fold the ledger the way NextDirectory / NextCommodity do) and call
+   entry.meta.get(key).  Everything ends in dict.get(key): a scan
    of the dictionary for THE key as it was typed in the query (Mech = "foldcase": the key is lower-cased first --
    deliberately broken, "keys are lower case anyway").  A dictionary that is None gives None whatever the default;
    a key that is present with the value None gives None, not the default. *)
@@ -511,10 +529,24 @@ RECURSIVE ScanGet(_, _, _, _)
 ScanGet(meta, k, n, default) ==        \* the pair written last wins, as in a dict built from the pairs
     IF n = 0 THEN default ELSE IF meta[n][1] = k THEN Val(meta[n][2]) ELSE ScanGet(meta, k, n - 1, default)
 DictGet(ometa, k, default) == IF IsNull(ometa) THEN NULL ELSE ScanGet(ometa[1], KeyAsUsed(k), Len(ometa[1]), default)
+RECURSIVE OpenSlot(_, _, _)
+OpenSlot(M, a, n) ==           \* the open directive stored for account a after the first n directives were folded (0: none)
+    IF n = 0 THEN 0
+    ELSE LET prev == OpenSlot(M, a, n - 1) IN
+         IF M[n].k = "open" /\ M[n].account = a
+         THEN (IF prev # 0 /\ (Mech = "listedopen" \/ M[prev].date <= M[n].date) THEN prev ELSE n)
+         ELSE prev
+RECURSIVE CommoditySlot(_, _, _)
+CommoditySlot(M, c, n) ==      \* the commodity directive stored for currency c after the first n directives
+    IF n = 0 THEN 0
+    ELSE LET prev == CommoditySlot(M, c, n - 1) IN
+         IF M[n].k = "commodity" /\ M[n].currency = c
+         THEN (IF prev # 0 /\ Mech = "firstcommodity" THEN prev ELSE n)
+         ELSE prev
 (* the five lookup functions for posting j of M[i] and key k, evaluated that way *)
 MechLookup(M, i, j, k) ==
     LET t == M[i] p == t.postings[j]
-        o == OpenIdx(M, p.acct) c == CommodityIdx(M, p.u.c)
+        o == Opt0(OpenSlot(M, p.acct, Len(M))) c == Opt0(CommoditySlot(M, p.u.c, Len(M)))
     IN  [m |-> DictGet(p.meta, k, NULL), em |-> DictGet(Some(t.meta), k, NULL),
          am |-> DictGet(p.meta, k, DictGet(Some(t.meta), k, NULL)),
          om |-> IF IsNull(o) THEN NULL ELSE DictGet(Some(M[o[1]].meta), k, NULL),
@@ -581,6 +613,23 @@ PartitionLaws ==
           /\ \A a, b \in 1..Len(ix) : a < b => ix[a] < ix[b]
           /\ \A i \in 1..Len(M) : M[i].k = k => \E n \in 1..Len(ix) : ix[n] = i
     /\ \A i \in 1..Len(M) : Cardinality({k \in Kinds : \E n \in 1..Len(OfKind(M, k)) : OfKind(M, k)[n] = i}) = 1
+    \* the directories: one row per account named by an open / close directive, one row per declared currency; each
+    \* shows a directive of that account / currency -- THE directive where there is one only -- and no open directive
+    \* of the account is dated before the one shown, no commodity directive of the currency is listed after the one shown
+    /\ Cardinality(AccountsRows(M)) = Cardinality(DirectoryAccounts(M))
+    /\ Cardinality(CommoditiesRows(M)) = Cardinality(DeclaredCurrencies(M))
+    /\ \A r \in AccountsRows(M) :
+          /\ IsNull(r.open) <=> OpensOf(M, r.account) = {}
+          /\ IsNull(r.close) <=> ClosesOf(M, r.account) = {}
+          /\ ~IsNull(r.open) => /\ r.open[1] \in OpensOf(M, r.account)
+                                /\ \A j \in OpensOf(M, r.account) : M[r.open[1]].date <= M[j].date
+                                /\ r.open_date = Some(M[r.open[1]].date) /\ r.open_meta = MetaCell(M[r.open[1]].meta)
+          /\ ~IsNull(r.close) => /\ r.close[1] \in ClosesOf(M, r.account)
+                                 /\ \A j \in ClosesOf(M, r.account) : M[r.close[1]].date <= M[j].date
+    /\ \A c \in DeclaredCurrencies(M) :
+          LET S == CommoditiesOf(M, c) IN
+          /\ TypedRow(M, CHOOSE i \in S : \A j \in S : j <= i) \in CommoditiesRows(M)
+          /\ Cardinality(S) = 1 => \A i \in S : CommodityIdx(M, c) = Some(i)
     /\ \A name \in TypedTables :                       \* a typed table shows what #entries shows for that type
           LET ix == OfKind(M, TableKind[name]) IN
           \A n \in 1..Len(ix) : /\ EntryRow(M, ix[n], Keys).type = TypeName(TableKind[name])
@@ -611,10 +660,16 @@ NullLaws ==
                  /\ IsNull(OpenIdx(M, p.acct)) => IsNull(x.om) /\ IsNull(r.open_date)
                  /\ IsNull(CommodityIdx(M, p.u.c)) => IsNull(x.cm)
                  \* the account-open and commodity lookups are lookups in THAT directive's dictionary, key for key
+                 \* (of several: the open directive no other open directive of the account precedes in time, nor in
+                 \* the ledger on the same date; the commodity directive no other one of the currency follows)
                  /\ \A i \in 1..Len(M) :
-                       /\ (M[i].k = "open" /\ M[i].account = p.acct) =>
-                             (x.om = IF HasKey(M[i].meta, k) THEN Val(RawGet(M[i].meta, k)) ELSE NULL)
-                       /\ (M[i].k = "commodity" /\ M[i].currency = p.u.c) =>
+                       /\ (/\ M[i].k = "open" /\ M[i].account = p.acct
+                           /\ ~\E j \in 1..Len(M) : /\ j # i /\ M[j].k = "open" /\ M[j].account = p.acct
+                                                    /\ (M[j].date < M[i].date \/ (M[j].date = M[i].date /\ j < i))) =>
+                             /\ x.om = IF HasKey(M[i].meta, k) THEN Val(RawGet(M[i].meta, k)) ELSE NULL
+                             /\ r.open_date = Some(M[i].date)
+                       /\ (/\ M[i].k = "commodity" /\ M[i].currency = p.u.c
+                           /\ ~\E j \in (i + 1)..Len(M) : M[j].k = "commodity" /\ M[j].currency = p.u.c) =>
                              (x.cm = IF HasKey(M[i].meta, k) THEN Val(RawGet(M[i].meta, k)) ELSE NULL)
         /\ \A a \in {t.postings[x].acct : x \in 1..Len(t.postings)} :   \* siblings, not the posting itself
               a \in r.other_accounts <=> \E x \in 1..Len(t.postings) : x # ps[n][2] /\ t.postings[x].acct = a
